@@ -15,7 +15,7 @@ Variable E : bytes -> bytes -> bytes.
 (* COUNT || BEARER || DIRECTION || 0^26 as a 64-bit number *)
 Definition cbd64 (count bearer dir:N) : N := count * 2 ^ 32 + bearer * 2 ^ 27 + dir * 2 ^ 26.
 
-Definition eea2_counter_block (count bearer dir:N) : bytes := N_to_be 16 (cbd64 count bearer dir * 2 ^ 64).
+Definition eea2_counter_block (count bearer dir:N) : bytes := N_to_be 8 (cbd64 count bearer dir) ++ repeat 0 8.   (* ... || 0^64 *)
 Definition eea2 (key:bytes) (count bearer dir:N) (msg:bytes) : bytes :=
   ctr_xor E key (eea2_counter_block count bearer dir) msg.
 
